@@ -9,6 +9,9 @@ PAIRS = {
     "cs-4": (1.0, (0.3, 0.3), 1.4, (0.8, -0.1), 0.05),
     "cs-5": (1.0, (0.0, 0.0), 1.5, (1.0, 0.0), 0.0),
     "cs-6": (2.0, (0.25, -0.1), 2.5, (1.3, 0.3), 0.15),
+    # strongly curved arcs (a circle of 4 quadratic arcs): second moments of the pieces need the full node count
+    "c4-1": (1.0, (0.1, -0.2), 1.4, (0.7, 0.1), 0.1, 4),
+    "c4-2": (2.0, (0.25, -0.1), 2.5, (1.3, 0.3), 0.15, 4),
     "K3-wrong-1": (1.0, (0.247, -0.172), 1.4, (0.828, 0.04), 0.26),
     "K3-wrong-2": (1.5, (0.068, -0.297), 2.1, (0.911, -0.117), 0.231),
     "K3-raises-1": (1.0, (-0.105, -0.218), 1.4, (0.753, 0.199), 0.219),
@@ -17,8 +20,9 @@ PAIRS = {
 
 def build(name):
     from shapepy import Primitive
-    r, cc, side, sc, ang = PAIRS[name]
-    C = Primitive.circle(radius=r, center=cc)
+    r, cc, side, sc, ang = PAIRS[name][:5]
+    nd = PAIRS[name][5] if len(PAIRS[name]) > 5 else 16
+    C = Primitive.circle(radius=r, center=cc, ndivangle=nd)
     O = Primitive.square(side=side, center=sc)
     O.rotate(ang)
     return C, O
